@@ -396,7 +396,11 @@ def _remove_invalid_ckpts(
   checkpoint_files = [
     os.path.join(dir_path, c)
     for c in checkpoint_files
-    if c.match(f'{prefix}*') and not c.match(f'*{MP_ARRAY_POSTFIX}')
+    if c.match(f'{prefix}*')
+    and not c.match(f'*{MP_ARRAY_POSTFIX}')
+    # leftovers of interrupted saves are not checkpoints (see _all_checkpoints)
+    and not c.match(f'{prefix}tmp')
+    and not c.match(f'*{ocp.utils.TMP_DIR_SUFFIX}*')
   ]
   checkpoint_files = natural_sort(checkpoint_files)
 
